@@ -294,14 +294,18 @@ class Laws(Suite):
     def __init__(self):
         self.pools = _Pools()
 
-    # case = {"terms": [term...], "hash": [[string, hash]...]}
+    # case = {"terms": [term...]}
     def make_case(self, terms):
+        return {"terms": terms}
+
+    def oracles(self, case):
+        """(hash table, ill-typed flags) for a case: derived from the tree under test when the Coq text is written, never stored"""
         strings = []
-        for j in terms:
+        for j in case["terms"]:
             for s in term_strings(j):
                 if s not in strings:
                     strings.append(s)
-        return {"terms": terms, "hash": [[s, hash(s)] for s in strings], "ill": [ill_typed(j) for j in terms]}
+        return [[s, hash(s)] for s in strings], [ill_typed(j) for j in case["terms"]]
 
     def gen(self, rng, i):
         pool = self.pools.get(rng)
@@ -418,9 +422,10 @@ class Laws(Suite):
         return {"eq": [[False] * n] * n, "hash": [0] * n, "lt": [["raise"] * n] * n, "flag": False, "why": ["timeout"]}
 
     def coq_case(self, case):
+        hashes, ill = self.oracles(case)
         return ("{| c_terms := " + clist(cterm(j) for j in case["terms"]) + "; c_hash := "
-                + clist(ctuple(cstr(s), cZ(h)) for s, h in case["hash"])
-                + "; c_ill := " + clist(cbool(b) for b in case.get("ill", [False] * len(case["terms"]))) + " |}")
+                + clist(ctuple(cstr(s), cZ(h)) for s, h in hashes)
+                + "; c_ill := " + clist(cbool(b) for b in ill) + " |}")
 
     def coq_obs(self, obs):
         cm = {"lt": "Some CLt", "nlt": "Some CNlt", "raise": "Some CRaise"}
@@ -512,7 +517,7 @@ class Text(Suite):
         self.pools = _Pools()
 
     def make_case(self, j):
-        return {"term": j, "orc": oracle_for(j)}
+        return {"term": j}   # the constructor oracle is derived when the Coq text is written (oracle_for)
 
     def usable(self, j):
         if j[0] == "L" and j[3] == "":
@@ -616,7 +621,7 @@ class Text(Suite):
 
     def coq_case(self, case):
         return ("{| t_term := " + cterm(case["term"]) + "; t_orc := "
-                + clist(ctuple(ctuple(cstr(a), cstr(b)), cstr(c)) for a, b, c in case["orc"]) + " |}")
+                + clist(ctuple(ctuple(cstr(a), cstr(b)), cstr(c)) for a, b, c in oracle_for(case["term"])) + " |}")
 
     def coq_obs(self, obs):
         return ("{| t_n3 := " + copt(obs["n3"], cstr) + "; t_from := " + cwres(obs["from"])
